@@ -2,11 +2,15 @@
    inverse_table is regenerated from /repo by symbolic evaluation of inverse_gate. *)
 From Coq Require Import ZArith List Bool Reals Lia Lra.
 From QP Require Import Cx Apply Gates Rsem.
-From QPM Require Import Transpile Inverse InvRefute.
+From QPM Require Import Transpile Inverse.
 From QPG Require Import invtab.
 Import ListNotations.
 
-Definition is_known_bad (k : gkind) : bool := existsb (gkind_eqb k) inverse_known_bad.
+(* a kind is set aside only when it is listed as a known finding AND its regenerated row really fails the exact check:
+   once the defect is repaired in /repo the row is covered by the theorems below again *)
+Definition row_fails (k : gkind) : bool :=
+  match inv_lookup inverse_table k with Some ig => negb (inv_ok (k, ig)) | None => true end.
+Definition is_known_bad (k : gkind) : bool := existsb (gkind_eqb k) inverse_known_bad && row_fails k.
 Definition good_rows := filter (fun e : gkind * gate => negb (is_known_bad (fst e))) inverse_table.
 
 (* every row of the regenerated inverse table (outside the listed known findings) satisfies
@@ -68,24 +72,6 @@ Theorem folding_gate_count :
   forall (A : Type) (inv : A -> A) m (circ : list A),
   length (fold_with inv m [] circ) = (length circ * (1 + 2 * m))%nat.
 Proof. intros. apply folding_length_uniform. Qed.
-
-(* the two rows listed as known findings are REFUTED, as theorems about the regenerated table: negating the
-   angles of U2 / U3 in place is not the inverse (witnesses U2(0,0) and U3(pi, pi/2, 0)) *)
-Theorem regenerated_u2_row_is_not_an_inverse : forall q,
-  ~ (csem [rsem (mkC KU2 [q] [0%R; 0%R]); rsem (inverse_gate inverse_table (mkC KU2 [q] [0%R; 0%R]))] ≃ csem []).
-Proof.
-  intros q. destruct (inv_lookup inverse_table KU2) as [ig|] eqn:E; [|vm_compute in E; discriminate].
-  apply (negating_u2_angles_is_not_the_inverse inverse_table q ig E).
-  vm_compute in E. injection E as <-. unfold inst, theta_of, ang_eval. cbn. f_equal. f_equal; [|f_equal]; lra.
-Qed.
-Theorem regenerated_u3_row_is_not_an_inverse : forall q,
-  ~ (csem [rsem (mkC KU3 [q] [PI; (PI / 2)%R; 0%R]); rsem (inverse_gate inverse_table (mkC KU3 [q] [PI; (PI / 2)%R; 0%R]))] ≃ csem []).
-Proof.
-  intros q. destruct (inv_lookup inverse_table KU3) as [ig|] eqn:E; [|vm_compute in E; discriminate].
-  apply (negating_u3_angles_is_not_the_inverse inverse_table q ig E).
-  vm_compute in E. injection E as <-. unfold inst, theta_of, ang_eval. cbn. f_equal. f_equal; [|f_equal; [|f_equal]]; lra.
-Qed.
-Print Assumptions regenerated_u3_row_is_not_an_inverse.
 
 Example c12_nonvacuous :
   Forall cgate_ok [mkC KRX [2]%nat [1%R]; mkC KCNOT [0; 1]%nat []; mkC KT [1]%nat []] /\
